@@ -21,3 +21,4 @@ open Dashu.Props.C18
 #print axioms simplest_from_fbig_entry
 #print axioms code_set_is_rounding_set_on_class
 #print axioms code_optimal_on_class
+#print axioms error_bounds_required_is_rounding_set
